@@ -65,7 +65,13 @@ static long g1_list_len(struct stream *head)
  * (a malloc'ed 16 KB struct is re-encoded as a whole at every field write: 37 M variables,
  * out of memory); their contents are made arbitrary, not zero (over-approximation) ---- */
 unsigned g_lowfail, g_calloc_n;
-static struct stream g1_pool0, g1_pool1, g1_pool2, g1_pool3;
+#ifndef G1_POOL
+#define G1_POOL 3
+#endif
+static struct stream g1_pool0;
+#if G1_POOL > 1
+static struct stream g1_pool1, g1_pool2;
+#endif
 static void g1_arbitrary_links(struct stream *s)
 {
 	struct stream *a, *b; void *d;     /* arbitrary */
@@ -76,8 +82,12 @@ void *calloc(size_t n, size_t sz)
 	__CPROVER_assert(n == 1 && sz == sizeof(struct stream), "G1: unexpected calloc request");
 	if (nondet_bool()) { g_lowfail++; return NULL; }
 	unsigned k = g_calloc_n++;
-	struct stream *s = k == 0 ? &g1_pool0 : k == 1 ? &g1_pool1 : k == 2 ? &g1_pool2 : &g1_pool3;
-	__CPROVER_assert(k < 4, "G1 bound: at most four streams allocated");
+#if G1_POOL > 1
+	struct stream *s = k == 0 ? &g1_pool0 : k == 1 ? &g1_pool1 : &g1_pool2;
+#else
+	struct stream *s = &g1_pool0;
+#endif
+	__CPROVER_assert(k < G1_POOL, "G1 bound: no more streams allocated than the ghost directory has entries");
 	g1_arbitrary_links(s);
 	return s;
 }
@@ -107,7 +117,40 @@ static char g1_dirobj;
 DIR *opendir(const char *name) { g_od_n++; g_od_path = name; return g_od_fail ? NULL : (DIR *) &g1_dirobj; }
 int closedir(DIR *d) { g_cd_n++; __CPROVER_assert(d == (DIR *) &g1_dirobj, "closedir of the opened directory"); return g_cd_fail ? -1 : 0; }
 
+#include "path.h"
+#ifdef G1_PATH_MODEL
+/* trace_load group: the two path.c functions that scan a PATH_MAX buffer backwards
+ * (symbolic-index writes into a 4096-byte array: 8-35 M variables per call) are replaced by
+ * constant-index models for strings shorter than G1_STRMAX; group g1_path_models checks the
+ * models against the real functions on every string the harness uses. */
+#define path_dirname real_path_dirname
+#define path_remove_trailing real_path_remove_trailing
+#endif
 #include "path.c"                 /* the real /repo/src/emu/path.c */
+#ifdef G1_PATH_MODEL
+#undef path_dirname
+#undef path_remove_trailing
+static int m_len(const char *s)
+{
+	int n = 0;
+	for (int k = 0; k < G1_STRMAX; k++) if (n == k && s[k] != '\0') n = k + 1;
+	__CPROVER_assert(n < G1_STRMAX, "G1 bound: string fits the path models");
+	return n;
+}
+void path_remove_trailing(char *path)
+{
+	int n = m_len(path);
+	for (int k = G1_STRMAX - 1; k >= 0; k--)
+		if (k == n - 1 && path[k] == '/') { path[k] = '\0'; n--; }
+}
+void path_dirname(char path[PATH_MAX])
+{
+	path_remove_trailing(path);
+	int i = m_len(path) - 1;
+	for (int k = G1_STRMAX - 1; k >= 0; k--) if (i == k && path[k] != '/') i = k - 1;
+	for (int k = G1_STRMAX - 1; k >= 0; k--) if (i == k && path[k] == '/') { path[k] = '\0'; i = k - 1; }
+}
+#endif
 #include "trace.c"                /* the real /repo/src/emu/trace.c */
 
 #define RV __CPROVER_return_value
@@ -116,24 +159,36 @@ int closedir(DIR *d) { g_cd_n++; __CPROVER_assert(d == (DIR *) &g1_dirobj, "clos
 /* ---- nftw (trusted): ghost directory of <= 3 entries, any order ---- */
 #define G1_NENT 3
 int g_nent; const char *g_ent_path[G1_NENT]; int g_ent_type[G1_NENT]; unsigned g_ent_visits[G1_NENT];
-int g_ord[G1_NENT];                   /* visiting order: a permutation of 0..2 */
 int g_nftw_fail_before, g_nftw_fail_after; unsigned g_nftw_n; const char *g_nftw_dir; int g_nftw_cb_ok; int g_nftw_stopped;
 struct trace *g_nftw_cur;
+static int g1_visit(__nftw_func_t fn, int i)   /* i is a constant at every call */
+{
+	static struct stat sb; static struct FTW ftwbuf;
+	if (i >= g_nent) return 0;
+	g_ent_visits[i]++;
+	int r = fn(g_ent_path[i], &sb, g_ent_type[i], &ftwbuf);
+	if (r != 0) g_nftw_stopped = 1;
+	return r;
+}
+#define G1_VISIT3(a, b, c) { if ((r = g1_visit(fn, a)) == 0 && (r = g1_visit(fn, b)) == 0) r = g1_visit(fn, c); }
+int g_perm;                           /* which of the 6 visiting orders */
 int nftw(const char *dirpath, __nftw_func_t fn, int nopenfd, int flags)
 {
 	(void) nopenfd; (void) flags;
 	g_nftw_n++; g_nftw_dir = dirpath; g_nftw_cb_ok = (fn == cb_nftw); g_nftw_cur = cur_trace;
 	g_nftw_done = 0;
 	if (g_nftw_fail_before) { g_nftw_done = 1; return -1; }
-	struct stat sb; struct FTW ftwbuf;
-	for (int j = 0; j < G1_NENT; j++) {
-		int i = g_ord[j];
-		if (i >= g_nent) continue;
-		g_ent_visits[i]++;
-		int r = fn(g_ent_path[i], &sb, g_ent_type[i], &ftwbuf);
-		if (r != 0) { g_nftw_stopped = 1; g_nftw_done = 1; return r; }
+	int r = 0;
+	switch (g_perm) {
+	case 0: G1_VISIT3(0, 1, 2); break;
+	case 1: G1_VISIT3(0, 2, 1); break;
+	case 2: G1_VISIT3(1, 0, 2); break;
+	case 3: G1_VISIT3(1, 2, 0); break;
+	case 4: G1_VISIT3(2, 0, 1); break;
+	default: G1_VISIT3(2, 1, 0); break;
 	}
 	g_nftw_done = 1;
+	if (r != 0) return r;
 	return g_nftw_fail_after ? -1 : 0;
 }
 
@@ -225,13 +280,12 @@ static void g1_reset(void)
 }
 
 #ifdef H_CB_NFTW
-static void g1_cb_case(int c)   /* c is a constant at every call: the path text is concrete */
+static void g1_cb_case(int c, int n0)   /* c and n0 are constants at every call: the path text and the list shape are concrete */
 {
 	static struct trace g1_t; static struct stream g1_s0;
 	struct trace *t = &g1_t; struct stream *s0 = &g1_s0;
 	g_calloc_n = 0;
 	/* a trace that already holds zero or one stream */
-	int n0 = nondet_bool() ? 1 : 0;
 	t->tracedir[0] = 't'; t->tracedir[1] = '\0';
 	t->nstreams = n0; t->streams = n0 ? s0 : NULL; s0->prev = s0; s0->next = NULL;
 	cur_trace = t;
@@ -266,45 +320,37 @@ static void g1_cb_case(int c)   /* c is a constant at every call: the path text 
 void h_cb_nftw(void)
 {
 #ifdef G1_ONE
-	g1_cb_case(G1_ONE);
+	g1_cb_case(G1_ONE, 1);
 #else
-	g1_cb_case(0); g1_cb_case(1); g1_cb_case(2); g1_cb_case(3);
-	g1_cb_case(4); g1_cb_case(5); g1_cb_case(6); g1_cb_case(7);
+	g1_cb_case(0, 0); g1_cb_case(1, 0); g1_cb_case(2, 1); g1_cb_case(3, 1);
+	g1_cb_case(4, 0); g1_cb_case(5, 0); g1_cb_case(6, 1); g1_cb_case(7, 1);
+	g1_cb_case(0, 1); g1_cb_case(5, 1);
 #endif
 }
 #endif
 
 /* =============================== trace_load (bounded: <= 3 directory entries) =============================== */
 #ifdef H_TRACE_LOAD
-void h_trace_load(void)
+/* entry i of the ghost directory lives in its own directory (a directory holds one
+ * stream.json); whether it is a regular file is arbitrary */
+static const int g1_ent_cand[G1_NENT] = { 0, 2, 6 };     /* t/a, t/b/c, t//d */
+static void g1_trace_case(const char *dir, int max_ent)
 {
 	static struct trace g1_t;
 	struct trace *t = &g1_t;
 	g1_reset(); g_calloc_n = 0;
-	/* the ghost directory: entry i is one of the candidates of ITS OWN directory (a directory
-	 * holds one stream.json), any type flag */
-	g_nent = nondet_int(); __CPROVER_assume(g_nent >= 0 && g_nent <= G1_NENT);
-	int c0 = nondet_bool() ? 0 : 1;                          /* t/a/...  */
-	int c1 = nondet_bool() ? 2 : (nondet_bool() ? 3 : 4);    /* t/b/c/... */
-	int c2 = nondet_bool() ? 5 : (nondet_bool() ? 6 : 7);    /* t/..., t//d/... */
-	int C[G1_NENT] = { c0, c1, c2 };
+	g_nent = nondet_int(); __CPROVER_assume(g_nent >= 0 && g_nent <= max_ent);
 	int want[G1_NENT], nwant = 0;
 	for (int i = 0; i < G1_NENT; i++) {
-		g_ent_path[i] = g1_cands[C[i]].path;
+		g_ent_path[i] = g1_cands[g1_ent_cand[i]].path;
 		g_ent_type[i] = nondet_int();
 		g_ent_visits[i] = 0;
-		want[i] = i < g_nent && g_ent_type[i] == FTW_F && g1_cands[C[i]].is_json;
+		want[i] = i < g_nent && g_ent_type[i] == FTW_F;
 		nwant += want[i];
 	}
-	/* any visiting order */
-	g_ord[0] = nondet_int(); g_ord[1] = nondet_int(); g_ord[2] = nondet_int();
-	__CPROVER_assume(g_ord[0] >= 0 && g_ord[0] < 3 && g_ord[1] >= 0 && g_ord[1] < 3 && g_ord[2] >= 0 && g_ord[2] < 3);
-	__CPROVER_assume(g_ord[0] != g_ord[1] && g_ord[0] != g_ord[2] && g_ord[1] != g_ord[2]);
+	g_perm = nondet_int(); __CPROVER_assume(g_perm >= 0 && g_perm < 6);     /* any visiting order */
 	g_od_fail = nondet_bool(); g_cd_fail = nondet_bool(); g_nftw_fail_before = nondet_bool(); g_nftw_fail_after = nondet_bool();
 	g_snp_toolong = nondet_bool();
-	/* the trace directory as given: "t" with 0..2 trailing slashes */
-	int nsl = nondet_int(); __CPROVER_assume(nsl >= 0 && nsl <= 2);
-	char dir[4] = { 't', nsl >= 1 ? '/' : '\0', nsl >= 2 ? '/' : '\0', '\0' };
 
 	int r = trace_load(t, dir);
 
@@ -322,7 +368,7 @@ void h_trace_load(void)
 		for (int i = 0; i < G1_NENT; i++) {
 			int hits = 0; struct stream *obj = NULL;
 			for (unsigned k = 0; k < G1_NENT; k++)
-				if (k < g_sl_n && rel_is(k, g1_cands[C[i]].rel) && want[i]) { hits++; obj = g_sl_stream[k]; }
+				if (k < g_sl_n && want[i] && rel_is(k, g1_cands[g1_ent_cand[i]].rel)) { hits++; obj = g_sl_stream[k]; }
 			VASSERT(hits == (want[i] ? 1 : 0), "every directory with a stream.json is loaded exactly once, under its relative path, whatever the visiting order");
 			if (want[i]) {
 				int inlist = 0;
@@ -333,16 +379,45 @@ void h_trace_load(void)
 		}
 		VASSERT(g_dlsort_n == 1 && g_dlsort_head == (void *) &t->streams && g_dlsort_cmp == G1_CMP_cmp_streams, "the stream list is sorted once, by cmp_streams (relpath)");
 		VASSERT(g_dlsort_after_nftw == 1 && g_dlsort_len == nwant, "... after the walk, on the complete list");
-		REACH("trace loaded");
-		if (nwant == 3 && g_ord[0] == 2 && g_ord[1] == 0) REACH("three streams, visited in the order 2,0,1");
-		if (nwant == 3 && g_ord[0] == 0 && g_ord[1] == 1) REACH("three streams, visited in the order 0,1,2");
+		if (max_ent == 0) REACH("empty trace directory given with trailing slashes");
+		if (nwant == 3 && g_perm == 4) REACH("three streams, visited in the order 2,0,1");
+		if (nwant == 3 && g_perm == 0) REACH("three streams, visited in the order 0,1,2");
 		if (nwant == 0 && g_nent == 3) REACH("no stream among three entries");
-		if (nwant == 1 && g_nent == 3 && want[1] && nsl == 2) REACH("one stream, trace directory given with two trailing slashes");
-	} else {
+		if (nwant == 1 && g_nent == 3 && want[1]) REACH("one stream among three entries");
+	} else if (max_ent > 0) {
 		if (env_ok && g_sl_failed && nwant == 3 && g_sl_n == 2) REACH("second of three streams fails to load");
 		if (g_od_fail) REACH("cannot open the trace directory");
 		if (g_snp_toolong) REACH("trace directory path too long");
 		if (!g_od_fail && !g_snp_toolong && !g_cd_fail && g_nftw_fail_after && g_sl_failed == 0 && g_lowfail == 0) REACH("walk fails after visiting");
 	}
+}
+void h_trace_load(void)
+{
+	g1_trace_case("t", G1_NENT);     /* the directory with up to three entries */
+	g1_trace_case("t//", 0);         /* trailing slashes (empty directory) */
+}
+#endif
+
+/* =============================== path models vs the real path.c =============================== */
+#ifdef H_PATH_MODELS
+static void g1_model_case(const char *text)   /* concrete text */
+{
+	char a[PATH_MAX], b[PATH_MAX];
+	int n = 0;
+	for (; n < G1_STRMAX - 1 && text[n] != '\0'; n++) { a[n] = text[n]; b[n] = text[n]; }
+	for (int k = n; k < G1_STRMAX; k++) { a[k] = '\0'; b[k] = '\0'; }
+	real_path_dirname(a); path_dirname(b);
+	for (int k = 0; k < G1_STRMAX; k++) VASSERT(a[k] == b[k], "path_dirname model = real path_dirname on this string");
+	for (n = 0; n < G1_STRMAX - 1 && text[n] != '\0'; n++) { a[n] = text[n]; b[n] = text[n]; }
+	for (int k = n; k < G1_STRMAX; k++) { a[k] = '\0'; b[k] = '\0'; }
+	real_path_remove_trailing(a); path_remove_trailing(b);
+	for (int k = 0; k < G1_STRMAX; k++) VASSERT(a[k] == b[k], "path_remove_trailing model = real path_remove_trailing on this string");
+}
+void h_path_models(void)
+{
+	g1_model_case("t/a/stream.json"); g1_model_case("t/b/c/stream.json"); g1_model_case("t//d/stream.json");
+	g1_model_case("t/stream.json"); g1_model_case("t"); g1_model_case("t/"); g1_model_case("t//"); g1_model_case("");
+	g1_model_case("/"); g1_model_case("a//b//");
+	REACH("models agree with path.c on the strings used");
 }
 #endif
